@@ -190,7 +190,14 @@ def nan_batch(ctx, n, salt, sl):
                 if k > 0:
                     if tree._gsc(tree):
                         break
-                    tree.run_step()
+                    try:
+                        tree.run_step()
+                    except Exception as e:
+                        # with NaN fitness the order of individuals is random by design (worse_than ->
+                        # random.choice), so the run itself may leave the domain of the other properties
+                        # (e.g. LevelLimit indexing past its candidate list): not this property's business
+                        sl.count("run-step-raised-under-NaN-objective:" + type(e).__name__)
+                        break
                 n_nan = sum(1 for _, d in tree.all_demes for ind in d.all_individuals if ind.fitness != ind.fitness)
                 st_np = np.random.get_state()[1].copy()
                 st_py = random.getstate()
